@@ -752,6 +752,27 @@ func genCorpus() {
 		}
 	}
 
+	// --- percent signs anywhere in a rewritten file (the text must never pass through a format string)
+	{
+		pct := "package PKG\n\nimport \"fmt\"\n" + types2 +
+			"\n// Share returns x as a share of 100% (a comment with a percent sign).\nfunc Share(x, y int) string {\n\tr := x % y // the % operator\n\tr %= 7\n\treturn fmt.Sprintf(\"%d%% of %s: %v %5.2f %[1]d %x %q %T %+v %#v %%d\", r, \"total\", y, 1.5, \"s\", x, y, r) + `raw %d %s %%` + \"100%\"\n}\n\n" +
+			"/* block comment: 50% off, %s, %!d(MISSING) */\n\nfunc Eq1(a, b *S) bool { return deriveEqual(a, b) } // 100% equal\n"
+		dup := "\nfunc Eq2(a, b *S) bool { return deriveEqualAgain(a, b) && fmt.Sprint(\"%v\") != \"%\" } // renamed, %d stays\n"
+		conf := "\nfunc Eq3(a, b *T) bool { return deriveEqual(a, b) || 7%3 == 1 } // renamed, % stays\n"
+		for _, v := range []struct{ what, src, flags, length string }{
+			{"percent signs in strings, operators and comments + duplicate", pct + dup, "dedup", "shorter"},
+			{"percent signs in strings, operators and comments + conflict", pct + conf, "autoname", "longer"},
+			{"percent signs in strings, operators and comments + both", pct + dup + conf, "both", "mixed"},
+		} {
+			files := map[string]string{"u.go": v.src}
+			modes := bystanders(files)
+			add(caseT{Kind: "rename", What: v.what, Renames: v.flags, Length: v.length, Gofmt: true}, files, modes)
+			files = map[string]string{"u.go": uglify(r, v.src)}
+			modes = bystanders(files)
+			add(caseT{Kind: "rename", What: v.what + ", unformatted", Renames: v.flags, Length: v.length, Gofmt: false}, files, modes)
+		}
+	}
+
 	// --- user files with syntax errors that hold a call to rename (F61: refused, nothing written back)
 	{
 		headOK := "package PKG\n" + types2 + "\nfunc Eq1(a, b *S) bool { return deriveEqual(a, b) }\n"
